@@ -412,7 +412,8 @@ impl Wallet {
                         //
                         if input.amount > 0 && input.public_key == self.public_key {
                             wallet_changed |= WALLET_UPDATED;
-                            self.add_slip(block.id, tx_index, input, true, None);
+                            // the slip comes back where it was created, not where it was spent
+                            self.add_slip(input.block_id, input.tx_ordinal, input, true, None);
                         }
                         i += 1;
                     }
